@@ -4,7 +4,7 @@ P=$1; ID=$2
 cd /repo && git apply "$P" || exit 2
 cd /verif && rm -rf replays && ./run.py check $ID > /tmp/try_$ID.log 2>&1; RC=$?
 cd /repo && git checkout -- . 
-cd /verif; echo "exit=$RC"; grep -c VIOLATION /tmp/try_$ID.log; tail -1 /tmp/try_$ID.log
+cd /verif; python3 tools/kernels.py /repo coq/Gen >/dev/null; echo "exit=$RC"; grep -c VIOLATION /tmp/try_$ID.log; tail -1 /tmp/try_$ID.log
 python3 - <<PY
 import json,glob
 for f in sorted(glob.glob('/verif/replays/$ID*'))[:4]:
